@@ -816,13 +816,11 @@ func (s *Datastore) ReadStartingWithUser(
 
 	var targetUsersArg sq.Or
 	for _, u := range filter.UserFilter {
-		userObjectType, userObjectID, userRelation := tupleUtils.ToUserPartsFromObjectRelation(u)
+		userObjectType, userObjectID, userRelation := tupleUtils.ToUserParts(tupleUtils.GetObjectRelationAsString(u))
 		targetUser := sq.Eq{
 			"user_object_type": userObjectType,
 			"user_object_id":   userObjectID,
-		}
-		if userRelation != "" {
-			targetUser["user_relation"] = userRelation
+			"user_relation":    userRelation,
 		}
 		targetUsersArg = append(targetUsersArg, targetUser)
 	}
